@@ -5,8 +5,11 @@ P=/verif/seeded/$1/patch.diff; shift
 cd /verif
 git -C /repo diff --quiet || { echo "/repo has uncommitted changes"; exit 2; }
 git -C /repo apply $P || { echo "PATCH DOES NOT APPLY TO /repo"; exit 2; }
+# evidence of a run against a changed tree must never replace the committed evidence
+rm -rf /verif/work/evidence.bak; cp -r /verif/evidence /verif/work/evidence.bak
 for c in "$@"; do
   ./check $c 2>&1 | grep -E "^VIOLATION|^FAIL|^KNOWN|property=" | cut -c1-220
 done
 git -C /repo checkout -- .
+rm -rf /verif/evidence; mv /verif/work/evidence.bak /verif/evidence
 git -C /repo status --short | head -3
